@@ -47,6 +47,29 @@ impl<T> JoinHandle<T> {
         }
     }
 
+    /// Like `join`, but returns `None` if the thread was frozen by a simulated kill.
+    pub fn join_or_crashed(self) -> Option<Result<T>> {
+        match self.0 {
+            Handle::Real(h) => Some(h.join()),
+            Handle::Sim { tid, done_res, slot, kernel: k } => {
+                let me = kernel::current().map(|(_, me)| me)?;
+                k.yield_now(me);
+                loop {
+                    if let Some(r) = slot.lock().unwrap().take() {
+                        return Some(r);
+                    }
+                    if k.is_crashed(tid) {
+                        return None;
+                    }
+                    if k.is_finished(tid) {
+                        return Some(Err(Box::new("sim thread finished without result")));
+                    }
+                    k.block(me, done_res, None, "JoinHandle::join");
+                }
+            }
+        }
+    }
+
     pub fn is_finished(&self) -> bool {
         match &self.0 {
             Handle::Real(h) => h.is_finished(),
